@@ -10,7 +10,10 @@
 (*   oob    [kind "center"|"whole", box]   remove_out_of_bounds_particles  *)
 (*   trim   [start, end] (voxels)           adapt_to_trimming               *)
 (*   points [pts = {[t, pos]}, r] (lattice) clean_by_distance_to_points     *)
-(*   mask   [tl, masks[t] = [shape, zero]]  clean_by_tomo_mask              *)
+(*   mask   [tl, masks[t] = [shape, zero], form]  clean_by_tomo_mask         *)
+(*          form = how the caller stores the masks: "array", "em", "mrc",   *)
+(*          "rec" (file paths), "mixed"; voxel (i,j,k) of a mask is the     *)
+(*          same voxel in every form                                        *)
 (* A case carries a sequence of 1..3 such calls (field ops) that are       *)
 (* applied one after the other to the same list with the SAME dimension    *)
 (* table / point table / mask list: every call is judged with the original *)
@@ -157,6 +160,13 @@ C09_WholeImpliesCenter ==
             Case.ps[k].id \in KeptIds =>
                 /\ InsideOOB([Case EXCEPT !.op.kind = "center"], Case.ps[k])
                 /\ (Case.op.box >= 2 => InsideOOB([Case EXCEPT !.op.box = Case.op.box - 2], Case.ps[k]))
+
+\* the storage form of the masks is an attribute of the call only: it never changes which particles survive
+MaskForms == {"array", "em", "mrc", "rec", "mixed"}
+C09_MaskFormIrrelevant ==
+    done /\ Case.op.name = "mask" =>
+        /\ Case.op.form \in MaskForms
+        /\ \A f \in MaskForms : Result([Case EXCEPT !.op.form = f]).ps = res.ps
 
 TypeOK == nc \in 0..Len(cs.ops) /\ (~done => res.ps = cs.ps)
 
